@@ -118,27 +118,27 @@ def solve_one(job):
         cvccmd = ["/usr/bin/cvc5", "--tlimit=%d" % (tsec * 1000), "--fp-exp", path]
         if "FloatingPoint" in smt2 and use_cvc5:
             return (idx,) + _race([("z3-5.1.0", z3cmd(tsec)), ("cvc5-1.0.3", cvccmd)], tsec)
-        first = min(tsec, 8) if has_q else tsec
-        r, secs, backend, reason = _race([("z3-5.1.0", z3cmd(first))], first)
-        if r != "unknown":
-            return idx, r, secs, backend, reason
+        secs, reason, backend = 0.0, "", "z3-5.1.0"
         if has_q:
+            # quick attempt on the full query first (most obligations need no quantifier reasoning at all)
+            r0, s0, b0, reason0 = _race([("z3-5.1.0", z3cmd(3))], 3)
+            secs += s0
+            if r0 != "unknown":
+                return idx, r0, secs, b0, reason0
             t0 = time.time()
             inst = _inst_text(smt2)
             secs += time.time() - t0
             if inst is not None:
                 ipath = _write_tmp(inst)
                 paths.append(ipath)
-                r2, s2, b2, reason2 = _race([("z3-5.1.0", [Z3_BIN, "-T:%d" % min(tsec, 30), "-memory:%d" % MEM_MB, ipath])], min(tsec, 30))
+                r2, s2, b2, reason2 = _race([("z3-5.1.0", [Z3_BIN, "-T:%d" % min(tsec, 20), "-memory:%d" % MEM_MB, ipath])], min(tsec, 20))
                 secs += s2
                 if r2 == "unsat":
                     return idx, r2, secs, b2 + "(ground-instantiated)", ""
-            if tsec > first:
-                r3, s3, b3, reason3 = _race([("z3-5.1.0", z3cmd(tsec))], tsec)
-                secs += s3
-                if r3 != "unknown":
-                    return idx, r3, secs, b3, reason3
-                reason = reason3
+        r, s1, backend, reason = _race([("z3-5.1.0", z3cmd(tsec))], tsec)
+        secs += s1
+        if r != "unknown":
+            return idx, r, secs, backend, reason
         if use_cvc5:
             r4, s4, b4, reason4 = _race([("cvc5-1.0.3", cvccmd)], tsec)
             secs += s4
@@ -234,6 +234,252 @@ def _cvc5_scalar_values(fs, timeout_s):
     # map ackermann constants back to the select terms they stand for
     back = [(c, sel) for sel, c in subs]
     return [z3.substitute(e, *back) if back else e for e in parsed]
+
+
+def obligation_inst_smt2(ob):
+    fs = list(ob.pc) + [z3.Not(ob.goal)]
+    if not any(z3.is_quantifier(e) for e in _walk(fs)):
+        return None
+    try:
+        inst = instantiate_quantifiers(fs)
+    except z3.Z3Exception:
+        return None
+    if inst is None:
+        return None
+    inst = ackermannize(inst)
+    s = z3.Solver()
+    for f in inst:
+        s.add(f)
+    return s.to_smt2()
+
+
+def get_model(ob, timeout_ms=30000, extra=()):
+    """Re-solve a failed obligation in this process to obtain a model: z3 API first; if it does not answer quickly,
+    cvc5 supplies values for the scalar inputs and z3 completes the model with those pinned."""
+    fs = list(ob.pc) + [z3.Not(ob.goal)]
+    quick = min(int(timeout_ms), 15000)
+    if extra:
+        m = _api_model(fs + list(extra), quick)
+        if m is not None:
+            return m
+    m = _api_model(fs, quick)
+    if m is not None:
+        return m
+    pins = _cvc5_scalar_values(fs, max(10, int(timeout_ms / 1000)))
+    if pins:
+        return _api_model(fs + list(pins), timeout_ms)
+    return None
+
+
+# ----------------------------------------------------------------------------------------- preprocessing
+def _walk(fs):
+    seen, stack, order = set(), list(fs), []
+    while stack:
+        e = stack.pop()
+        i = e.get_id()
+        if i in seen:
+            continue
+        seen.add(i)
+        order.append(e)
+        if z3.is_quantifier(e):
+            stack.append(e.body())
+        else:
+            stack.extend(e.children())
+    return order
+
+
+def _contains_var(e, cache):
+    i = e.get_id()
+    if i in cache:
+        return cache[i]
+    if z3.is_var(e):
+        r = True
+    elif z3.is_quantifier(e):
+        r = True   # conservative
+    else:
+        r = any(_contains_var(c, cache) for c in e.children())
+    cache[i] = r
+    return r
+
+
+def ackermannize(formulas, rounds=4, subs_out=None):
+    """Replace reads ``A[t]`` of array *constants* that are only ever read at ground indices by fresh constants
+    plus the congruence axioms (Ackermann's reduction; equisatisfiable).  z3's combination of the array/UF
+    theory with mixed integer-real arithmetic is incomplete on our heap reads; the reduction makes those
+    obligations plain LIRA."""
+    fs = [z3.simplify(f) for f in formulas]
+    n_fresh = [0]
+    for _ in range(rounds):
+        nodes = _walk(fs)
+        varcache = {}
+        reads = {}      # array const id -> list of select terms
+        bad = set()
+        consts = {}
+        for e in nodes:
+            if z3.is_quantifier(e) or not z3.is_app(e):
+                continue
+            if z3.is_select(e) and z3.is_const(e.arg(0)) and e.arg(0).decl().kind() == z3.Z3_OP_UNINTERPRETED:
+                a = e.arg(0)
+                consts[a.get_id()] = a
+                if _contains_var(e.arg(1), varcache):
+                    bad.add(a.get_id())
+                else:
+                    reads.setdefault(a.get_id(), []).append(e)
+                # the index may itself mention arrays
+                children = [e.arg(1)]
+            else:
+                children = e.children()
+            for c in children:
+                if z3.is_const(c) and z3.is_array(c) and c.decl().kind() == z3.Z3_OP_UNINTERPRETED \
+                        and not (z3.is_select(e) and c.eq(e.arg(0)) and False):
+                    # array constant used other than as the array operand of a select
+                    if not (z3.is_select(e) and e.arg(0).eq(c)) or (z3.is_select(e) and e.arg(1).eq(c)):
+                        bad.add(c.get_id())
+        # an array const also occurring under a quantifier body as non-read is caught above; occurrences inside
+        # quantifier bodies are walked too (bodies contain vars -> reads at var indices mark it bad)
+        todo = [aid for aid in reads if aid not in bad]
+        if not todo:
+            break
+        subs, extra = [], []
+        for aid in todo:
+            sels = reads[aid]
+            fresh = []
+            for s in sels:
+                n_fresh[0] += 1
+                c = z3.Const("%s@%d" % (consts[aid].decl().name(), n_fresh[0]), s.sort())
+                fresh.append(c)
+                subs.append((s, c))
+            for i in range(len(sels)):
+                for j in range(i + 1, len(sels)):
+                    extra.append(z3.Implies(sels[i].arg(1) == sels[j].arg(1), fresh[i] == fresh[j]))
+        # substitute innermost-last: z3.substitute handles simultaneous substitution of distinct terms
+        if subs_out is not None:
+            subs_out.extend(subs)
+        fs = [z3.substitute(f, *subs) for f in fs] + [z3.substitute(x, *subs) for x in extra]
+        fs = [z3.simplify(f) for f in fs]
+    return fs
+
+
+# ------------------------------------------------------------------ manual quantifier instantiation (portfolio member)
+def _ground_terms_by_sort(fs, sorts):
+    """Candidate instantiation terms per sort: array-sorted ground subterms; integer ground terms used as indices,
+    as arguments of uninterpreted functions, plus integer constants and their negations."""
+    out = {s: {} for s in sorts}
+    cache = {}
+    int_s = z3.IntSort()
+    for e in _walk(fs):
+        if z3.is_quantifier(e) or not z3.is_app(e):
+            continue
+        es = e.sort()
+        if z3.is_array(e) and es in out and not _contains_var(e, cache):
+            out[es][e.get_id()] = e
+        if int_s not in out:
+            continue
+        cands = []
+        if z3.is_select(e) or z3.is_store(e):
+            cands = [e.arg(1)]
+        elif e.decl().kind() == z3.Z3_OP_UNINTERPRETED and e.num_args() > 0:
+            cands = e.children()
+        if z3.is_const(e) and es == int_s and e.decl().kind() == z3.Z3_OP_UNINTERPRETED:
+            out[int_s][e.get_id()] = e
+            neg = z3.simplify(-e)
+            out[int_s][neg.get_id()] = neg
+        for c in cands:
+            if c.sort() == int_s and not _contains_var(c, cache):
+                out[int_s][c.get_id()] = c
+    return {s: list(d.values()) for s, d in out.items()}
+
+
+def instantiate_quantifiers(formulas, rounds=3, max_inst=300, budget_s=5.0):
+    """NNF + skolemisation (z3 tactic), then every remaining universal quantifier - at top level or nested under
+    and/or (all positions are positive after NNF) - is replaced by the conjunction of its instances at the ground
+    terms of the query.  The result is WEAKER than the input (hypotheses dropped), so ``unsat`` of the result proves
+    the original obligation; any other answer is inconclusive."""
+    import itertools
+    g = z3.Goal()
+    for f in formulas:
+        g.add(f)
+    try:
+        out = z3.Then(z3.Tactic("simplify"), z3.Tactic("nnf"))(g)
+    except z3.Z3Exception:
+        return None
+    if len(out) != 1:
+        return None
+    fs = []
+    for f in out[0]:
+        if z3.is_and(f):
+            fs.extend(f.children())
+        else:
+            fs.append(f)
+    if not any(z3.is_quantifier(f) for f in _walk(fs)):
+        return None
+    t_start = time.time()
+    state = {"n": 0}
+
+    def has_q(e, cache={}):
+        i = e.get_id()
+        if i not in cache:
+            cache[i] = any(z3.is_quantifier(x) for x in _walk([e]))
+        return cache[i]
+
+    def inst(e, terms, depth):
+        """instance-closure of a positive formula"""
+        if not has_q(e):
+            return e
+        if time.time() - t_start > budget_s or state["n"] > 4000:
+            return z3.BoolVal(True)
+        if z3.is_quantifier(e):
+            if not e.is_forall():
+                return z3.BoolVal(True)      # (should not occur after skolemisation) - dropping is sound
+            n = e.num_vars()
+            pools = [terms.get(e.var_sort(i), []) for i in range(n)]
+            if any(not p for p in pools):
+                return z3.BoolVal(True)
+            parts = []
+            for combo in itertools.islice(itertools.product(*pools), max_inst):
+                state["n"] += 1
+                body = z3.substitute_vars(e.body(), *reversed(combo))
+                parts.append(inst(z3.simplify(body), terms, depth + 1))
+                if time.time() - t_start > budget_s:
+                    break
+            return z3.And(*parts) if parts else z3.BoolVal(True)
+        if z3.is_and(e):
+            return z3.And(*[inst(c, terms, depth) for c in e.children()])
+        if z3.is_or(e):
+            return z3.Or(*[inst(c, terms, depth) for c in e.children()])
+        return z3.BoolVal(True)   # quantifier below another connective: drop (sound weakening only in positive positions,
+        #                           NNF guarantees this does not happen for and/or/not-atoms)
+
+    cur = fs
+    for rnd in range(rounds):
+        need = set()
+        for e in _walk(cur):
+            if z3.is_quantifier(e):
+                for i in range(e.num_vars()):
+                    need.add(e.var_sort(i))
+        terms = _ground_terms_by_sort(cur + (fs if rnd else []), need)
+        new = [z3.simplify(inst(f, terms, 0)) for f in fs]
+        flat = []
+        for f in new:
+            if z3.is_true(f):
+                continue
+            if z3.is_and(f):
+                flat.extend(f.children())
+            else:
+                flat.append(f)
+        cur = flat
+        if time.time() - t_start > budget_s:
+            break
+        # next round: instantiate the ORIGINAL formulas again with the (larger) term set of the current result
+        if rnd < rounds - 1:
+            cur = flat + [f for f in fs if has_q(f)]
+    cur = [f for f in cur if not has_q(f)]
+    seen, out2 = set(), []
+    for f in cur:
+        if f.get_id() not in seen:
+            seen.add(f.get_id())
+            out2.append(f)
+    return out2
 
 
 def obligation_inst_smt2(ob):
